@@ -54,6 +54,17 @@ CLAIMED = {
         note=TB + "sock_recv is assumed to return between 1 and count bytes or b'' at EOF.",
         technique="Coq proof (refinement of the socket loop to exact reads, symbolic case analysis of the reply state machine) + vm_compute correspondence",
         ref='6/C17'),
+    'C19': dict(
+        text=("Proof: for every signature (list of parameters of the five kinds, with/without defaults) and every call by "
+              "position count or by name set: exactness (every call Python's binding rule admits is accepted, except named "
+              "calls to handlers with positional-only parameters), soundness for signatures without a required keyword-only "
+              "parameter, the error codes (-32602 / -32601). Full soundness is refuted in Coq (C19_sound_refuted = known "
+              "finding F13). The binding rule itself (py_bind) is validated against the ACTUAL Python call on every case. "
+              "Correspondence exhaustive over all well-formed signatures up to 3 (quick) / 4 (thorough) parameters x all call "
+              "shapes, for plain functions, bound methods and partials."),
+        note=TB + "inspect.signature is trusted for methods/partials; py_bind covers positional-only and named-only calls (the only shapes JSON-RPC produces).",
+        technique="Coq proof (list lemmas over filter/existsb) + exhaustive vm_compute correspondence incl. the real call as binding oracle",
+        ref='6/C19'),
 }
 
 REASONS = {}
